@@ -6,6 +6,7 @@ import (
 	"net/url"
 	"os"
 	"path/filepath"
+	"sort"
 	"strconv"
 	"strings"
 )
@@ -580,7 +581,13 @@ func (rule *RuleAction) checkLocalAction(spec string, action *ExecAction) {
 
 func (rule *RuleAction) checkAction(meta *ActionMetadata, exec *ExecAction, describe func(*ActionMetadata) string) {
 	// Check specified inputs are defined in action's inputs spec
-	for id, i := range exec.Inputs {
+	ids := make([]string, 0, len(exec.Inputs))
+	for id := range exec.Inputs {
+		ids = append(ids, id)
+	}
+	sort.Strings(ids) // Report errors in deterministic order
+	for _, id := range ids {
+		i := exec.Inputs[id]
 		if _, ok := meta.Inputs[id]; !ok {
 			ns := make([]string, 0, len(meta.Inputs))
 			for _, i := range meta.Inputs {
@@ -597,7 +604,13 @@ func (rule *RuleAction) checkAction(meta *ActionMetadata, exec *ExecAction, desc
 	}
 
 	// Check mandatory inputs are specified
-	for id, i := range meta.Inputs {
+	ids = ids[:0]
+	for id := range meta.Inputs {
+		ids = append(ids, id)
+	}
+	sort.Strings(ids)
+	for _, id := range ids {
+		i := meta.Inputs[id]
 		if i.Required {
 			if _, ok := exec.Inputs[id]; !ok {
 				ns := make([]string, 0, len(meta.Inputs))
